@@ -1010,11 +1010,21 @@ fn c08(case: &Case, ctx: &Ctx, rpt: &mut Report, rng: &mut Rng) {
             let remainder_empty = Path::new(p)
                 .strip_prefix(&prefix)
                 .map_or(false, |r| r.as_os_str().is_empty());
+            // A path the original glob matches although it is outside the documented language is
+            // C01's to judge (its known findings are listed there).
+            if lhs
+                && case.ast.as_ref().map_or(false, |a| a.notes.is_empty())
+                && case.model.as_ref().map_or(false, |m| m.matches(&chars(p), Mode::May, Quirks::default()) == Tri::No)
+            {
+                rpt.bucket("skipped:matched-path-outside-model-language(C01 judges)");
+                continue;
+            }
+            // Consequence of the listed C01 finding: the glob begins with a rooted tree wildcard
+            // (which accepts partial components) and matches a path that prefix + postfix do not.
             let explained_by_rooted_quirk = lhs
-                && case.model.as_ref().map_or(false, |m| {
-                    let pc = chars(p);
-                    m.matches(&pc, Mode::May, Quirks::default()) == Tri::No
-                        && m.matches(&pc, Mode::May, Quirks { rooted_leading_tree_is_dotstar: true, rep_edge_tree_any_form: false }) == Tri::Yes
+                && !rhs
+                && case.ast.as_ref().map_or(false, |a| {
+                    matches!(a.seq.toks.first().map(|t| &t.node), Some(Node::Tree { lead: true, trail: true }))
                 });
             let lists_sep = case.ast.as_ref().map_or(false, |a| {
                 a.has_feature(&|t, _| match &t.node {
@@ -1159,6 +1169,8 @@ fn c08(case: &Case, ctx: &Ctx, rpt: &mut Report, rng: &mut Rng) {
 // ------------------------------------------------------------------------------------------
 
 struct Queried {
+    /// Reference parses of the members regardless of notes (used only to classify findings).
+    class_asts: Vec<(Ast, crate::refmodel::matcher::StaticInfo)>,
     /// Reference model of the pattern (all members parse and are documented syntax), used to leave
     /// paths that are outside the documented language to C01.
     model: Option<ModelPattern>,
@@ -1194,8 +1206,16 @@ fn outside_model(q: &Queried, p: &str, rpt: &mut Report) -> bool {
     false
 }
 
-fn query<'t, P: Program<'t>>(p: &P, label: Value, is_any: bool, model: Option<ModelPattern>) -> Queried {
+fn query<'t, P: Program<'t>>(p: &P, label: Value, is_any: bool, model: Option<ModelPattern>, exprs: &[&str]) -> Queried {
     Queried {
+        class_asts: exprs
+            .iter()
+            .filter_map(|e| parse::parse(e).ok())
+            .map(|a| {
+                let i = crate::refmodel::matcher::static_info(&a);
+                (a, i)
+            })
+            .collect(),
         model,
         label,
         exhaustive: guarded(|| p.is_exhaustive()),
@@ -1304,6 +1324,17 @@ fn c09_paths(q: &Queried, is_match: &dyn Fn(&str) -> Option<bool>, paths: &[Stri
     }
 }
 
+/// A tree wildcard at the edge of a branch whose open side (no absorbed separator) faces a
+/// neighbouring token rather than the beginning or end of the whole expression.
+fn has_open_sided_tree(ast: &Ast, info: &crate::refmodel::matcher::StaticInfo) -> bool {
+    ast.has_feature(&|t, _| match t.node {
+        Node::Tree { lead, trail } => {
+            (!lead && !info.static_first.contains(&t.id)) || (!trail && !info.static_last.contains(&t.id))
+        },
+        _ => false,
+    })
+}
+
 fn c10_paths(q: &Queried, is_match: &dyn Fn(&str) -> Option<bool>, paths: &[String], ctx: &Ctx, rpt: &mut Report, members: &[Glob]) {
     let depth = match &q.depth {
         Some(d) => d,
@@ -1346,8 +1377,11 @@ fn c10_paths(q: &Queried, is_match: &dyn Fn(&str) -> Option<bool>, paths: &[Stri
             let key = if n == 0 {
                 Some("empty-component-counted-as-a-component")
             }
-            else if q.model.as_ref().map_or(false, |m| m.asts.iter().any(|(_, i)| !i.rep_edge.is_empty())) {
+            else if q.class_asts.iter().any(|(_, i)| !i.rep_edge.is_empty()) {
                 Some("tree-wildcard-at-edge-of-repetition-body-encoded-as-expression-edge")
+            }
+            else if q.class_asts.iter().any(|(a, i)| has_open_sided_tree(a, i) || a.has_feature(&|t, d| d >= 1 && matches!(t.node, Node::Tree { .. }))) {
+                Some("tree-wildcard-inside-branch-miscounted")
             }
             else {
                 None
@@ -1901,7 +1935,7 @@ impl Monitor for GroupA {
                         _ => false,
                     })
                 });
-                let q = query(&case.glob, json!({"glob": clip(case.expr)}), false, model_of(&[case.expr]));
+                let q = query(&case.glob, json!({"glob": clip(case.expr)}), false, model_of(&[case.expr]), &[case.expr]);
                 let is_match = |p: &str| case.is_match(p);
                 let only_rooted_tree = case.ast.as_ref().map_or(false, |a| {
                     a.seq.toks.len() == 1 && matches!(a.seq.toks[0].node, Node::Tree { lead: true, trail: false })
@@ -1967,7 +2001,7 @@ impl Monitor for GroupA {
                                 }
                             }
                         }
-                        let q = query(&any, json!({"any": exprs}), true, model_of(&exprs));
+                        let q = query(&any, json!({"any": exprs}), true, model_of(&exprs), &exprs);
                         let is_match = |p: &str| guarded(|| any.is_match(p));
                         let lists_sep_any = true; // unknown for the other patterns: do not demand self-match
                         match self.id {
